@@ -253,6 +253,10 @@ def programs(tier):
             out.append((kind, ('Step', 'Step', 'SetGenMon', 'Finalize')))
         out.append(('Powell', ('Step', 'Step', 'Step', 'SetGenMon', 'Finalize')))
         out.append(('Powell', ('Step', 'Step', 'Finalize', 'Step', 'Finalize')))
+        # a Solve whose limit is already met (reports without iterating): after ranges were imposed mid-run, with a pending Powell record
+        for kind in ('NM', 'Powell'):
+            out.append((kind, ('Step', 'SetStrictRanges', 'Solve0')))
+            out.append((kind, ('Step', 'Step', 'Solve0')))
     else:
         cost = {'Step': 1, 'Solve1': 2, 'Solve0': 1}
         extra = programs('quick')
